@@ -1295,6 +1295,10 @@ class Analysis:
         # than that is far more often lost precision than a defect and is reported as undecided.
         one = width if width else 1
         NEAR = 4                     # misses of up to a small header (type/length octets, two hex digits, a 16-bit field)
+        if length is not None and not length.is_const():
+            # a library access of variable length: a miss of a few bytes is what a lost relation between the length and the
+            # cursor looks like (mpeg2_ts_serialize_data: the 4 byte packet header); only the classic miss of one stays eligible
+            NEAR = 1
         if slack is not None and slack > max(one, NEAR):
             self.obligations.append(dict(pos=pos, ln=ln, kind=rw, status="undecided", buf=label, what=what or key(node),
                                          detail="bound present but weaker than needed by %d bytes against %s" % (slack, label)))
@@ -1383,7 +1387,7 @@ class Analysis:
 
     # ------------------------------------------------------------ fixpoint
     PART_LEN = 5        # decisions remembered per partition key
-    PART_MAX = 12       # partitions per block
+    PART_MAX = 24       # partitions per block
 
     def run(self, max_iter=400):
         """worklist fixpoint with trace partitioning: the state of a block is a small set of conjunctive
@@ -1437,6 +1441,16 @@ class Analysis:
             common = {x for x in (r0 & r1) if fn.blocks[x].elems or fn.blocks[x].term}
             if common:
                 part_blocks.add(bb)
+        # a switch over an expression that is switched over again later (size computation and its use): partition on the
+        # arm taken, so that the second switch meets one arm's state at a time
+        swkeys = {}
+        for bb in fn.reachable_blocks():
+            blk_ = fn.blocks[bb]
+            if blk_.cond is not None and blk_.term and blk_.term["k"] == "SwitchStmt":
+                swkeys.setdefault(key(core.strip_casts(blk_.cond)), []).append(bb)
+        for k_, bbs in swkeys.items():
+            if len(bbs) >= 2:
+                part_blocks.update(bbs)
         ins = {fn.entry: {(): init}}
         visits = {}
         order = fn.rpo()
@@ -1455,7 +1469,7 @@ class Analysis:
             b = min(work, key=lambda x: idx.get(x, 1 << 30))
             work.discard(b)
             blk = fn.blocks[b]
-            is_branch = b in part_blocks and blk.term["k"] in ("IfStmt", "&&", "||", "?:")
+            is_branch = b in part_blocks and blk.term["k"] in ("IfStmt", "&&", "||", "?:", "SwitchStmt")
             for pkey, st0 in list(ins[b].items()):
                 st = st0.copy()
                 if st.bottom:
@@ -1622,7 +1636,24 @@ class Analysis:
             if "case" in lab:
                 x = self.lin(c, st)
                 if x is not None:
-                    st.add_eq(x, Lin({}, int(lab["case"])))
+                    cv = Lin({}, int(lab["case"]))
+                    # the arm is infeasible when the state already excludes the label (a second switch over the same
+                    # expression, reached from another arm of the first one)
+                    if st.entails_le(x, cv, 1) or st.entails_le(cv, x, 1):
+                        st.bottom = True
+                        return
+                    st.add_eq(x, cv)
+            else:
+                # the edge taken when no label matches: with labels lo..hi (contiguous) and a state that bounds the operand
+                # by hi (or from lo), the operand is below lo (above hi)
+                labs = sorted(int((self.fn.blocks[s2].label or {}).get("case")) for s2 in blk.succ
+                              if s2 is not None and "case" in (self.fn.blocks[s2].label or {}))
+                x = self.lin(c, st)
+                if x is not None and labs and labs == list(range(labs[0], labs[-1] + 1)):
+                    if st.entails_le(x, Lin({}, labs[-1])):
+                        st.add(x.add(Lin({}, labs[0] - 1), -1))          # x <= lo - 1
+                    elif st.entails_le(Lin({}, labs[0]), x):
+                        st.add(Lin({}, labs[-1] + 1).add(x, -1))         # x >= hi + 1
             return
         if len(blk.succ) == 2:
             self.assume(st, c, si == 0)
